@@ -50,7 +50,7 @@ func vfHandshake(serverCfg, clientCfg *tls.Config) (ok bool, serverErr, clientEr
 	}
 	defer a.Close()
 	defer b.Close()
-	deadline := time.Now().Add(10 * time.Second)
+	deadline := time.Now().Add(60 * time.Second)
 	_ = a.SetDeadline(deadline)
 	_ = b.SetDeadline(deadline)
 	srvDone := make(chan error, 1)
